@@ -487,6 +487,21 @@ def family_conn2(tier='quick'):
                            ('c0', ('range', 1, 2), True, 'P1'), ('d0', ('min', 0), True, 'P1'), ('d1', opt, False, 'P1')],
                     conn_choices=[('K1', ['a0', 'a1'], ['b0'], []), ('K2', ['c0'], ['d0', 'd1'], [])],
                     label='conn2-second-conditional'))
+    # three (and four) connection choices active in the same architecture
+    one = ('list', (1,))
+    for nk in (3, 4):
+        conns, ccs = [], []
+        for q in range(nk):
+            conns += [(f's{q}', one, False, 'A'), (f't{q}a', opt, False, 'A'), (f't{q}b', opt, False, 'A')]
+            ccs.append((f'K{q + 1}', [f's{q}'], [f't{q}a', f't{q}b'], []))
+        out.append(Desc(['A'], [], ['A'], conns=conns, conn_choices=ccs, label=f'conn{nk}-perm'))
+    # three connection choices of which the middle one only exists under one option
+    out.append(Desc(['A', 'P0', 'P1'], [], ['A'], choices=[('C1', 'A', ['P0', 'P1'])],
+                    conns=[('s0', one, False, 'A'), ('t0a', opt, False, 'A'), ('t0b', opt, False, 'A'),
+                           ('s1', one, False, 'P1'), ('t1a', opt, False, 'P1'), ('t1b', opt, False, 'P1'),
+                           ('s2', one, False, 'A'), ('t2a', opt, False, 'A'), ('t2b', opt, False, 'A')],
+                    conn_choices=[('K1', ['s0'], ['t0a', 't0b'], []), ('K2', ['s1'], ['t1a', 't1b'], []),
+                                  ('K3', ['s2'], ['t2a', 't2b'], [])], label='conn3-middle-conditional'))
     return out
 
 
